@@ -124,6 +124,8 @@ type Exec struct {
 	forced      map[string]int
 	forcedEx    map[string]string
 	curSite     string
+	initPhase   bool
+	stack       []*ssa.Function
 	pcVars      []*Term
 	pcVarSet    map[*Term]bool
 	params      map[string]int
@@ -1020,6 +1022,7 @@ func (e *Exec) resetPath() {
 		e.unwind = 100000
 	}
 	e.aliases = nil
+	e.stack = e.stack[:0]
 	e.pcVars = nil
 	e.pcVarSet = map[*Term]bool{}
 	e.pathReached = nil
